@@ -12,5 +12,11 @@ git add -A; git commit -qm "Merge build/$b" 2>/dev/null
 (cd harness && cargo build --release --offline 2>&1 | grep -E "^error" | head -3)
 # the whole library must build after a merge (builders share lemma files): under the lake lock, with the generated files of /repo
 ( flock 9; python3 tools/extract.py --all > /dev/null; cd lean && if ! lake build Norad driver > /tmp/mergeb.lake.log 2>&1; then echo "!!!!!!!! LAKE BUILD FAILED AFTER MERGE of $b:"; grep -E "^error|✖" /tmp/mergeb.lake.log | head; fi ) 9> /verif/.build/lake.lock
+# a change to a SHARED observer re-runs every check that uses it (C17 was broken for a whole session by a change to
+# harness/src/fsfam.rs that was only re-run against C08 and C09)
+extra=""
+if git diff --name-only HEAD~1 HEAD 2>/dev/null | grep -qE "harness/src/fsfam.rs|lean/Driver/FSFam.lean|lean/Norad/Model/(FontSave|AbsFS)"; then extra="C08 C09 C17"; fi
+if git diff --name-only HEAD~1 HEAD 2>/dev/null | grep -qE "harness/src/(common|rng|small).rs|lean/Norad/Base/|^check$|tools/propcfg.py"; then extra="C01 C02 C03 C04 C05 C06 C07 C08 C09 C10 C11 C12 C13 C14 C15 C16 C17 C18 C19 C20"; fi
+for c in $extra; do case " $* " in *" $c "*) ;; *) set -- "$@" $c;; esac; done
 for c in "$@"; do ./check $c 2>&1 | tail -1 | cut -c1-160; done
 git add -A; git commit -qm "evidence refresh ($*)" -q 2>/dev/null
